@@ -132,6 +132,16 @@ Proof. vm_compute. reflexivity. Qed.
                          ["query", "eq", ["int", "2", "1"], 0, 1, 1, 1], ["query", "lt", ["int", "3", "1"], 0, 1, 1, 1], ["query", "eq", ["int", "2", "1"], 1, 1, 0, 1],
                          ["query", "eq", ["int", "1", "1"], 0, 1, 2, 1], ["equals", 2, 1, ["float", "1", "2"], 1, 1] + how, ["query", "eq", ["int", "1", "1"], 0, 1, 2, 1],
                          ["query", "lt", ["int", "1", "1"], 2, 1, 0, 1], ["query", "in_unit", ["int", "3", "1"], 0, 1, 2, 1]])
+    # the same number as int, float and Decimal in the ratios of three unrelated pairs (12, 12.0, Decimal(12)), queried with magnitudes of the three
+    # kinds at exponents 1, 2 and -1: nothing computed for one pair may be handed out for another because the numbers compare equal
+    sk = [["unit", "length"] for _ in range(6)]
+    for (i_, j_), kind_ in (((0, 1), "int"), ((2, 3), "float"), ((4, 5), "dec")):
+        sk.append(["equals", i_, 1, [kind_, "12", "1"], j_, 1])
+    for e_ in (1, 2, -1, 3):
+        for m_ in (["dec", "5", "1"], ["int", "5", "1"], ["float", "5", "1"]):
+            for (i_, j_) in ((0, 1), (2, 3), (4, 5), (5, 4), (3, 2), (1, 0)):
+                sk.append(["query", "in_unit", m_, i_, e_, j_, e_])
+    hists.insert(3, sk)
     # graphs with redundant, slightly inconsistent routes (cycles whose arcs multiply to different numbers, non-dyadic ratios whose
     # float products depend on association): the answer to a query must not depend on which other pairs were converted before,
     # nor on unrelated declarations or re-declarations made in between
@@ -156,7 +166,7 @@ Proof. vm_compute. reflexivity. Qed.
             e = rng.choice([o for o in ops if o[0] == "equals"]); ops.append(eq(e[1], e[4]))                             # re-declare an existing pair
         for _ in range(rng.randint(2, 5)): ops.append(q())
         return ops
-    check_all = {0, 1, 2}      # the fixed histories at the head: every query replayed in a fresh process
+    check_all = {0, 1, 2, 3}      # the fixed histories at the head: every query replayed in a fresh process
     # a family declared redundantly with a rounded figure (x = 2 m, m = 5 z and x = 4 n, n = 1.25 o, o = 2.002 z: x is 10 z or 10.01 z):
     # which route x -> z takes is the library's choice, but the same choice whatever was converted before (fixed corpus)
     def fam(earlier):
